@@ -7044,7 +7044,11 @@ size_t ZSTD_compressSequences(ZSTD_CCtx* cctx,
 static ZSTD_inBuffer inBuffer_forEndFlush(const ZSTD_CStream* zcs)
 {
     const ZSTD_inBuffer nullInput = { NULL, 0, 0 };
-    const int stableInput = (zcs->appliedParams.inBufferMode == ZSTD_bm_stable);
+    /* before the (possibly postponed) initialisation of a frame, appliedParams still are the previous frame's :
+     * the mode of the frame being started is the requested one */
+    const ZSTD_bufferMode_e inBufferMode = (zcs->streamStage == zcss_init) ?
+                zcs->requestedParams.inBufferMode : zcs->appliedParams.inBufferMode;
+    const int stableInput = (inBufferMode == ZSTD_bm_stable);
     return stableInput ? zcs->expectedInBuffer : nullInput;
 }
 
